@@ -32,6 +32,7 @@ from slimta.smtp.reply import Reply, timed_out, connection_failed
 from slimta.smtp.client import Client
 from slimta import logging
 from ..pool import RelayPoolClient
+from .. import PermanentRelayError
 from . import SmtpRelayError
 
 __all__ = ['SmtpRelayClient']
@@ -229,15 +230,29 @@ class SmtpRelayClient(RelayPoolClient):
         rcpttos = [self._rcptto(rcpt) for rcpt in envelope.recipients]
         try:
             data = self._data()
+            for i, rcpt_reply in enumerate(rcpttos):
+                rcpt = envelope.recipients[i]
+                if rcpt_reply.is_error():
+                    rcpt_results[rcpt] = SmtpRelayError.factory(rcpt_reply)
             self._check_replies(mailfrom, rcpttos, data)
         except SmtpRelayError:
             if data and not data.is_error():
                 self._send_empty_data()
             raise
-        for i, rcpt_reply in enumerate(rcpttos):
-            rcpt = envelope.recipients[i]
-            if rcpt_reply.is_error():
-                rcpt_results[rcpt] = SmtpRelayError.factory(rcpt_reply)
+
+    def _fail(self, result, rcpt_results, exc):
+        # A recipient that got a reply of its own keeps it: a failure of the
+        # whole message must not turn "try again later" into "failed for
+        # good" for that recipient, or the other way round.
+        for rcpt, value in rcpt_results.items():
+            if value is None:
+                rcpt_results[rcpt] = exc
+        kinds = set(isinstance(value, PermanentRelayError)
+                    for value in rcpt_results.values())
+        if len(kinds) > 1:
+            result.set(rcpt_results)
+        else:
+            result.set_exception(exc)
 
     def _deliver(self, result, envelope):
         rcpt_results = dict.fromkeys(envelope.recipients)
@@ -246,7 +261,7 @@ class SmtpRelayClient(RelayPoolClient):
             self._send_envelope(rcpt_results, envelope)
             msg_result = self._send_message_data(envelope)
         except SmtpRelayError as e:
-            result.set_exception(e)
+            self._fail(result, rcpt_results, e)
             self._rset()
         else:
             for key, value in rcpt_results.items():
